@@ -75,7 +75,25 @@ def type_queries(chk):
     qs += [("param", "select %s as x, %s as y", (1, "a")), ("param", "select %(a)s as x, c0 from tt where c0 = %(b)s", {"a": 1.5, "b": 1}),
            ("param", "select %s as d", (datetime.date(2020, 1, 2),)), ("param", "select %s as d", (decimal.Decimal("1.50"),)), ("param", "select %s as d", (None,)),
            ("param", "select %s as d", (True,))]
-    return [{"kind": "type", "form": f, "sql": sql, "params": p} for f, sql, p in qs]
+    out = [{"kind": "type", "form": f, "sql": sql, "params": p} for f, sql, p in qs]
+    # bound queries whose root is not a plain SELECT, under server-side (qmark) and client-side (pyformat) binding
+    for style, ph in (("qmark", "?"), ("pyformat", "%s")):
+        for sql, params in [
+            (f"select {ph} as x union all select {ph} as x", [1, 2]), (f"select {ph} as x union select 'a'", ["b"]),
+            (f"select c0 from tt where c0 = {ph} intersect select c0 from tt", [1]), (f"select c0, c13 from tt except select {ph}, {ph}", [7, "q"]),
+            (f"(select {ph} as x, {ph} as y)", [1.5, "s"]), (f"with q as (select {ph} as x) select x, x as y from q", [3]),
+            (f"select * from (select {ph} as x union all select {ph}) order by 1", [2, 1]), (f"values ({ph}, {ph})", [1, "v"]),
+            (f"select * from (values ({ph}, {ph})) as v (n, s)", [1, "v"]), (f"select {ph} as x order by 1 limit 1", ["only"]),
+        ]:
+            out.append({"kind": "type", "form": f"bound-non-select-root:{style}", "sql": sql, "params": params, "paramstyle": style})
+    # texts that contain statement separators / comment markers inside literals, quoted aliases and bound values
+    for sql, params in [
+        ("select 1 as n, 'note; SELECT 2.5 AS X --' as s", None), ("select 'a; b' as \"x; y\", 2 as \"p;q\"", None), ("select '-- c' as c, '/* d */' as d, ';' as e", None),
+        ("select 'x;y' as s, 1.5 as f", None), ("select %s as v, 1 as n", ["p; q"]), ("select %s as v, %s as w", ["; select 1", "--"]),
+        ("select c13 || '; ' as joined from tt", None), ("select 1 as n /* c; d */, 2 as m -- e; f", None),
+    ]:
+        out.append({"kind": "type", "form": "separators-in-text", "sql": sql, "params": params})
+    return out
 
 
 # statement kinds: (model kind, set-up statements, statement)
@@ -261,6 +279,8 @@ def _pytype(v):
 def _real_type(conn, case):
     from snowflake.connector.cursor import DictCursor
     sql, params = case["sql"], case["params"]
+    if isinstance(params, list):
+        params = tuple(params)
     cur = conn.cursor()
     out = {}
     try:
@@ -500,6 +520,56 @@ def _real_descfx(case):
         return res
 
 
+SCRIPTS = [
+    ["create table m1 (a int, b varchar)", "insert into m1 values (1, 'x'), (2, 'y')", "select a from m1", "select b, a from m1 order by a", "update m1 set a = 2",
+     "select count(*) as n from m1", "delete from m1 where a > 5"],
+    ["select 1 as one", "select 'two' as t, 2.5::float as f", "select c19, c4 from tt", "set v1 = 3", "select c0 from tt where c0 > 100"],
+    ["create view v2 as select c0, c13 from tt", "select * from v2", "drop view v2", "show tables", "select current_date as d", "begin", "select 1.5 as x", "rollback"],
+    ["select c0 from tt", "select c13 from tt"],
+]
+
+
+def script_cases():
+    return [{"kind": "script", "name": f"script-{i}", "stmts": st} for i, st in enumerate(SCRIPTS)]
+
+
+def _real_script(case):
+    """the script through execute_string (every returned cursor read afterwards) and its statements one by one on separate cursors of a twin"""
+    import fakesnow
+    import snowflake.connector
+
+    def read(cur):
+        r = {}
+        try:
+            r["description"] = _meta(cur.description)
+        except Exception as e:
+            r["description"] = f"raises {type(e).__name__}"
+        try:
+            rows = cur.fetchall()
+            r["width"] = len(rows[0]) if rows else None
+        except Exception as e:
+            r["width"] = f"fetchall raised {type(e).__name__}"
+        return r
+
+    res = {}
+    with fakesnow.patch():
+        conn = snowflake.connector.connect(database="db1", schema="s1")
+        _fixture(conn)
+        cursors = list(conn.execute_string(";\n".join(case["stmts"]) + ";"))
+        res["n"] = len(cursors)
+        res["script"] = [read(c) for c in cursors]
+    with fakesnow.patch():
+        conn = snowflake.connector.connect(database="db1", schema="s1")
+        _fixture(conn)
+        curs = []
+        for q in case["stmts"]:
+            c = conn.cursor()
+            c.execute(q)
+            curs.append(c)
+        res["single"] = [read(c) for c in curs]
+    return res
+
+
 def _real_seedpure(case):
     import fakesnow
     import snowflake.connector
@@ -534,13 +604,20 @@ def _worker_raw(shard):
     import fakesnow
     import snowflake.connector
     out = {}
-    types = [(i, c) for i, c in enumerate(shard) if c["kind"] == "type"]
-    if types:
-        with fakesnow.patch():
-            conn = snowflake.connector.connect(database="db1", schema="s1")
-            _fixture(conn)
-            for i, c in types:
-                out[i] = _real_type(conn, c)
+    for style in ("pyformat", "qmark"):
+        types = [(i, c) for i, c in enumerate(shard) if c["kind"] == "type" and c.get("paramstyle", "pyformat") == style]
+        if not types:
+            continue
+        old = snowflake.connector.paramstyle
+        snowflake.connector.paramstyle = style
+        try:
+            with fakesnow.patch():
+                conn = snowflake.connector.connect(database="db1", schema="s1")
+                _fixture(conn)
+                for i, c in types:
+                    out[i] = _real_type(conn, c)
+        finally:
+            snowflake.connector.paramstyle = old
     for i, c in enumerate(shard):
         if c["kind"] == "stmt":
             out[i] = _real_stmt(c)
@@ -552,6 +629,8 @@ def _worker_raw(shard):
             out[i] = _real_mutparams(c)
         elif c["kind"] == "descfx":
             out[i] = _real_descfx(c)
+        elif c["kind"] == "script":
+            out[i] = _real_script(c)
     return [out[i] for i in range(len(shard))]
 
 
@@ -579,9 +658,9 @@ def _opt(s):
 
 
 def _check_type(chk, case, real, drv):
-    chk.case(("type", case["sql"], str(case["params"])), nontrivial=True)
+    chk.case(("type", case["sql"], str(case["params"]), case.get("paramstyle")), nontrivial=True)
     chk.count(f"type:{case['form']}")
-    where = f"`{case['sql']}`" + (f" with params {case['params']!r}" if case["params"] else "")
+    where = f"`{case['sql']}`" + (f" with params {case['params']!r}" if case["params"] else "") + (f" (paramstyle {case['paramstyle']})" if case.get("paramstyle") else "")
     if "exec_error" in real:
         chk.count("type:statement-rejected")
         return
@@ -735,6 +814,19 @@ def _check_mutparams(chk, case, real, drv):
             return
 
 
+def _check_script(chk, case, real, drv):
+    chk.case(("script", case["name"]), nontrivial=True)
+    chk.count("script:statements", len(case["stmts"]))
+    if real["n"] != len(case["stmts"]):
+        chk.violation(f"execute_string of {case['stmts']} returned {real['n']} cursors for {len(case['stmts'])} statements", case, broken="C06_script_cursor_own_description (correspondence)")
+        return
+    for i, (q, a, b) in enumerate(zip(case["stmts"], real["script"], real["single"])):
+        if a != b:
+            chk.violation(f"conn.execute_string({case['stmts']}): the cursor returned for statement #{i} `{q}` has description/width {a}, but executed on its own "
+                          f"cursor the statement gives {b}", case, broken="C06_script_cursor_own_description (correspondence)")
+            return
+
+
 def _check_descfx(chk, case, real, drv):
     chk.case(("descfx", case["name"]), nontrivial=True)
     chk.count(f"describe():{case['mkind']}")
@@ -759,7 +851,7 @@ def _corpus():
     return [json.loads(f.read_text())["case"] for f in sorted(d.glob("*.json"))] if d.is_dir() else []
 
 
-CHECKS = {"type": _check_type, "stmt": _check_stmt, "reexec": _check_reexec, "seedpure": _check_seedpure, "mutparams": _check_mutparams, "descfx": _check_descfx}
+CHECKS = {"type": _check_type, "stmt": _check_stmt, "reexec": _check_reexec, "seedpure": _check_seedpure, "mutparams": _check_mutparams, "descfx": _check_descfx, "script": _check_script}
 
 
 def _dispatch(chk, c, r, drv):
@@ -771,7 +863,7 @@ def _dispatch(chk, c, r, drv):
 
 
 def run(chk) -> None:
-    cases = _corpus() + type_queries(chk) + kind_cases() + reexec_cases() + seedpure_cases() + mutparams_cases() + descfx_cases()
+    cases = _corpus() + type_queries(chk) + kind_cases() + reexec_cases() + seedpure_cases() + mutparams_cases() + descfx_cases() + script_cases()
     chk.rule = ("A: every declared column type, every DECIMAL(p,s) 1<=p<=38 (quick: boundary + 120 sampled; thorough: all 741), 42 expression forms, 21 aggregate/arithmetic "
                 "forms, 6 bound-parameter forms: description vs types.py model on DuckDB's DESCRIBE types, describe(sql), DictCursor keys, width, Python types; "
                 "B: 56 statement kinds (incl. ALTER TABLE/VIEW/SESSION forms) x 3 read points with a twin that never reads description; C: purity snapshots; "
